@@ -34,6 +34,11 @@ class Ctx:
             else:
                 ttl = 0
         self.ttl = ttl
+        # a share of tlru/utlru scripts keeps every entry alive throughout, so that recency (not expiry)
+        # decides the victims
+        self.long = kind in ("tlru", "utlru") and rng.random() < 0.35
+        if self.long and kind == "utlru":
+            self.ttl = 1000000
         self.tick = rng.choice([1, 2, 5]) if kind == "lfuda" else 0
         self.num, self.den = rng.choice([(1, 2), (1, 2), (1, 4), (3, 4), (1, 1), (0, 1)]) if kind == "lfuda" else (1, 2)
         self.now = T0
@@ -58,6 +63,9 @@ class Ctx:
             return
         if x < 0.45:
             return
+        if getattr(self, "long", False):
+            self.now += r.choice([1, MS, 5 * MS])
+            return
         future = [m for m in self.marks if m >= self.now - 1]
         if future and x < 0.85:
             m = r.choice(future)
@@ -77,7 +85,11 @@ class Ctx:
         return [self.key() for _ in range(n)]
 
     def ttl_arg(self):
-        return self.rng.choice([0, 1, 1, 2, 5, 10]) if self.kind == "tlru" else 0
+        if self.kind != "tlru":
+            return 0
+        if self.long:
+            return self.rng.choice([1000000, 2000000])
+        return self.rng.choice([0, 1, 1, 2, 5, 10])
 
     def note_write(self, k, ttl_ms):
         self.maybe.add(k)
@@ -131,7 +143,7 @@ def gen_op(c, insts=(0,), tag=None):
     if kind in TTL_KINDS:
         choices.append(("clean", 6))
     if kind == "utlru":
-        choices += [("uttl", 5), ("clear", 2)]
+        choices += [("uttl", 9), ("clear", 2)]
     if kind == "utmap":
         choices.append(("clear", 2))
     total = sum(w for _, w in choices)
@@ -179,7 +191,10 @@ def gen_op(c, insts=(0,), tag=None):
     elif name == "clear":
         toks = ["clear"]
     elif name == "uttl":
-        c.cur_ttl = r.choice([0, 1, 2, 3, 5, 10, 20])
+        if c.long:
+            c.cur_ttl = r.choice([1000000, 2000000, 3000000])
+        else:
+            c.cur_ttl = r.choice([0, 1, 2, 3, 5, 10, 20, c.cur_ttl, c.cur_ttl + 1])
         toks = ["uttl", c.cur_ttl]
     for i in insts:
         c.emit(i, toks, tag)
@@ -210,11 +225,55 @@ def variant(rng):
     return ts, lf, val, seed
 
 
+def ttl_order_prefix(c):
+    """Template for tlru/utlru: entries written under different TTLs, so that write order and deadline
+    order differ, then the clock is put just past the earliest deadline and the expired-first paths
+    (clean_expired_values, an insert into the full cache, size) are taken."""
+    r = c.rng
+    big = r.choice([8, 10, 20])
+    if c.kind == "utlru":
+        c.emit(0, ["uttl", big])
+        c.cur_ttl = big
+    nfill = r.randint(1, max(1, c.cap - 1))
+    for _ in range(nfill):
+        k, v = c.key(), c.fresh_val()
+        c.emit(0, ["ins", k, v, "iu", big])
+        c.note_write(k, big)
+        if r.random() < 0.5:
+            c.now += r.choice([0, 1, MS])
+    for _ in range(r.randint(1, 3)):
+        small = r.choice([1, 2, 3, big, big + 1, c.cur_ttl if c.kind == "utlru" else 2])
+        if c.kind == "utlru":
+            c.emit(0, ["uttl", small])
+            c.cur_ttl = small
+        if r.random() < 0.8:
+            k = c.key() if r.random() < 0.6 else r.randrange(c.nkeys)
+            v = c.fresh_val()
+            c.emit(0, ["ins", k, v, r.choice(["iu", "iu", "u", "i"]), small])
+            c.note_write(k, small)
+    future = sorted(m for m in c.marks if m > c.now)
+    if future:
+        c.now = future[0] + r.choice([0, 0, 1])
+    for _ in range(r.randint(1, 3)):
+        x = r.random()
+        if x < 0.4:
+            c.emit(0, ["clean"])
+        elif x < 0.8:
+            k, v = r.randrange(c.nkeys), c.fresh_val()
+            c.emit(0, ["ins", k, v, "iu", big])
+            c.note_write(k, big)
+        else:
+            c.emit(0, ["size"])
+
+
 def gen_single(rng, kind, maxops=60):
     c = Ctx(rng, kind)
     n = rng.randint(8, maxops)
     if kind in TTL_KINDS:
         n = min(n, 40)  # sweeps of TTL containers replay the prefix: quadratic
+    if kind in ("tlru", "utlru") and not c.long and rng.random() < 0.4:
+        ttl_order_prefix(c)
+        n = max(4, n - c.nops)
     for _ in range(n):
         gen_op(c)
     drain(c)
